@@ -19,9 +19,30 @@ func withQ(r Range, v Q) Range {
 	return r
 }
 
+// ctCase: lsp = OWS spelling of the lines that carry no range; method / success = shape of the operation served through the API.
 func ctCase(lines [][]Range, olists [][]Offer, defaults []string, api bool, adef Offer) M {
-	return M{"kind": "ct", "lines": linesJSON(lines), "olists": olistsJSON(olists), "defaults": trace.BB(defaults),
-		"api": api, "adef": adef.JSON()}
+	return M{"kind": "ct", "lines": linesJSON(lines), "lsp": make([]int, len(lines)), "olists": olistsJSON(olists), "defaults": trace.BB(defaults),
+		"api": api, "adef": adef.JSON(), "method": "GET", "success": "200"}
+}
+
+func shaped(m M, method, success string) M {
+	m["method"], m["success"] = method, success
+	return m
+}
+
+func blanks(m M, lsp ...int) M {
+	m["lsp"] = lsp
+	return m
+}
+
+var (
+	apiMethods   = []string{"GET", "POST", "DELETE", "HEAD"}
+	apiSuccesses = []string{"200", "201", "204", "default"}
+)
+
+// shapeNo picks the n-th (method, success) combination (16 shapes)
+func shapeNo(m M, n int) M {
+	return shaped(m, apiMethods[n%4], apiSuccesses[(n/4)%4])
 }
 
 func encCase(lines [][]Range, olists [][]string) M {
@@ -29,7 +50,7 @@ func encCase(lines [][]Range, olists [][]string) M {
 	for _, l := range olists {
 		ol = append(ol, trace.BB(l))
 	}
-	return M{"kind": "enc", "lines": linesJSON(lines), "olists": ol}
+	return M{"kind": "enc", "lines": linesJSON(lines), "lsp": make([]int, len(lines)), "olists": ol}
 }
 
 // all lists of length <= n over pool (including the empty list), in a fixed order
@@ -180,15 +201,31 @@ func genExhaustiveCT(c *drv.Ctx, thorough bool) {
 	defaults := []string{"", "d/d"}
 	adef := Offer{T: "d", S: "d"}
 	n := 0
-	c.Case(ctCase(nil, olists, defaults, true, adef)) // no Accept header
+	// every operation shape (4 methods x success 200 / 201 / 204 / default-only) without Accept and with every single range
+	for sh := 0; sh < 16; sh++ {
+		c.Case(shapeNo(ctCase(nil, olists, defaults, true, adef), sh))                                     // no Accept header
+		c.Case(shapeNo(blanks(ctCase([][]Range{{}}, olists, defaults, true, adef), sh%len(owsTable)), sh)) // one line without ranges
+		n += 2
+	}
+	c.Case(blanks(ctCase([][]Range{{}, {}}, olists, defaults, true, adef), 0, 1))
 	n++
 	for _, r1 := range ranges {
-		c.Case(ctCase([][]Range{{r1}}, olists, defaults, true, adef))
-		n++
-		for _, r2 := range ranges {
-			c.Case(ctCase([][]Range{{r1, r2}}, olists, defaults, true, adef))
-			c.Case(ctCase([][]Range{{r1}, {r2}}, olists, defaults, false, adef))
+		for sh := 0; sh < 16; sh++ {
+			c.Case(shapeNo(ctCase([][]Range{{r1}}, olists, defaults, true, adef), sh))
+			n++
+		}
+		// a line without ranges (empty, or white space only) before / after the line of the range
+		for _, b := range []int{0, 1, 3} {
+			c.Case(shapeNo(blanks(ctCase([][]Range{{}, {r1}}, olists, defaults, true, adef), b, 0), n))
+			c.Case(shapeNo(blanks(ctCase([][]Range{{r1}, {}}, olists, defaults, true, adef), 0, b), n+1))
 			n += 2
+		}
+		for _, r2 := range ranges {
+			c.Case(shapeNo(ctCase([][]Range{{r1, r2}}, olists, defaults, true, adef), n))
+			c.Case(ctCase([][]Range{{r1}, {r2}}, olists, defaults, false, adef))
+			c.Case(shapeNo(blanks(ctCase([][]Range{{}, {r1, r2}}, olists, defaults, true, adef), n%2, 0), n+5))
+			c.Case(blanks(ctCase([][]Range{{r1}, {}, {r2}}, olists, defaults, false, adef), 0, n%4, 0))
+			n += 4
 		}
 	}
 	if thorough {
@@ -237,7 +274,9 @@ func genExhaustiveEnc(c *drv.Ctx, thorough bool) {
 	c.Case(encCase(nil, olists))
 	for _, r1 := range ranges {
 		c.Case(encCase([][]Range{{r1}}, olists))
-		n++
+		c.Case(encCase([][]Range{{}, {r1}}, olists))
+		c.Case(blanks(encCase([][]Range{{r1}, {}}, olists), 0, 1))
+		n += 3
 		for _, r2 := range ranges {
 			c.Case(encCase([][]Range{{r1, r2}}, olists))
 			n++
@@ -414,6 +453,7 @@ func randCT(r *rand.Rand, api bool) M {
 		flat = flat[n:]
 	}
 	fixQs(r, lines)
+	lines, lsp := insertBlankLines(r, lines)
 	defaults := []string{"", "d/d"}
 	if len(all) > 0 && r.Intn(3) == 0 {
 		defaults = append(defaults, all[r.Intn(len(all))].Raw())
@@ -430,7 +470,25 @@ func randCT(r *rand.Rand, api bool) M {
 			}
 		}
 	}
-	return ctCase(lines, olists, defaults, api, adef)
+	m := blanks(ctCase(lines, olists, defaults, api, adef), lsp...)
+	return shaped(m, apiMethods[r.Intn(4)], apiSuccesses[r.Intn(4)])
+}
+
+// insertBlankLines adds, with probability 1/3, lines without ranges (empty or OWS only) at random positions.
+func insertBlankLines(r *rand.Rand, lines [][]Range) ([][]Range, []int) {
+	if r.Intn(3) == 0 {
+		for n := 1 + r.Intn(2); n > 0; n-- {
+			i := r.Intn(len(lines) + 1)
+			lines = append(lines[:i:i], append([][]Range{{}}, lines[i:]...)...)
+		}
+	}
+	lsp := make([]int, len(lines))
+	for i, l := range lines {
+		if len(l) == 0 {
+			lsp[i] = []int{0, 0, 1, 2, 3, 4}[r.Intn(6)]
+		}
+	}
+	return lines, lsp
 }
 
 var codings = []string{"gzip", "br", "deflate", "identity", "x-gzip", "GZIP", "compress"}
@@ -470,7 +528,8 @@ func randEnc(r *rand.Rand) M {
 		flat = flat[n:]
 	}
 	fixQs(r, lines)
-	return encCase(lines, olists)
+	lines, lsp := insertBlankLines(r, lines)
+	return blanks(encCase(lines, olists), lsp...)
 }
 
 // ---- (d) opaque bytes ---------------------------------------------------------------
@@ -518,7 +577,7 @@ func randOpaque(r *rand.Rand) M {
 			hdrs = append(hdrs, randBytes(r, r.Intn(40)))
 		case 1:
 			d := randCT(r, false)
-			ls := renderHeader(linesFrom(drv.Norm(d)["lines"]))
+			ls := renderHeader(linesFrom(drv.Norm(d)["lines"]), nil)
 			if len(ls) == 0 {
 				ls = []string{"a/x;q=0.5"}
 			}
